@@ -63,25 +63,35 @@ fn encode(i: &Instruction, addr: u16) -> Option<Vec<B>> {
     })
 }
 
-pub struct RefImage { pub lines: Vec<Vec<u8>>, pub stacksize: Stacksize, pub programsize: Programsize, pub size: usize }
+/// `mask[i][j]` is false where byte j of line i refers to a name that is defined more than once with
+/// different values: the statement speaks of "the" definition, so such a byte is not constrained.
+pub struct RefImage { pub lines: Vec<Vec<u8>>, pub mask: Vec<Vec<bool>>, pub stacksize: Stacksize, pub programsize: Programsize, pub size: usize, pub ambiguous_names: usize }
 #[derive(Debug)]
-pub enum Unsupported { BackwardOrg, DecNonRegister, TooLarge, DuplicateName }
+pub enum Unsupported { BackwardOrg, DecNonRegister, TooLarge }
 
 pub fn assemble(asm: &Asm) -> Result<RefImage, Unsupported> {
     let mut addr: u16 = 0;
     let mut table: HashMap<String, u8> = HashMap::new();
+    let mut ambiguous: std::collections::HashSet<String> = std::collections::HashSet::new();
+    let mut define = |table: &mut HashMap<String, u8>, n: &str, v: u8| {
+        if let Some(old) = table.insert(n.to_ascii_lowercase(), v) {
+            if old != v {
+                ambiguous.insert(n.to_ascii_lowercase());
+            }
+        }
+    };
     let mut pre: Vec<Vec<B>> = vec![];
     let (mut ss, mut ps) = (Stacksize::_16, Programsize::Auto);
     for l in &asm.lines {
         let bs: Vec<B> = match l {
             Line::Empty(_) => vec![],
-            Line::Label(n, _) => { if table.insert(n.to_ascii_lowercase(), addr as u8).is_some() { return Err(Unsupported::DuplicateName); } vec![] }
+            Line::Label(n, _) => { define(&mut table, n, addr as u8); vec![] }
             Line::Instruction(i, _) => match i {
                 Instruction::AsmOrigin(a) => { if (*a as u16) < addr { return Err(Unsupported::BackwardOrg); } vec![B::Byte(0); *a as usize - addr as usize] }
                 Instruction::AsmByte(n) => vec![B::Byte(0); *n as usize],
                 Instruction::AsmDefineBytes(v) => v.iter().map(|b| B::Byte(*b)).collect(),
                 Instruction::AsmDefineWords(v) => v.iter().flat_map(|w| vec![B::Byte((*w >> 8) as u8), B::Byte(*w as u8)]).collect(),
-                Instruction::AsmEquals(n, v) => { if table.insert(n.to_ascii_lowercase(), *v).is_some() { return Err(Unsupported::DuplicateName); } vec![] }
+                Instruction::AsmEquals(n, v) => { define(&mut table, n, *v); vec![] }
                 Instruction::AsmStacksize(s) => { ss = *s; vec![] }
                 Instruction::AsmProgramsize(p) => { ps = *p; vec![] }
                 other => encode(other, addr).ok_or(Unsupported::DecNonRegister)?,
@@ -96,7 +106,11 @@ pub fn assemble(asm: &Asm) -> Result<RefImage, Unsupported> {
         B::Ref(l) => table[&l.to_ascii_lowercase()],
         B::Rel(l, next) => (table[&l.to_ascii_lowercase()] as u16).wrapping_sub(*next) as u8,
     }).collect()).collect();
-    Ok(RefImage { lines, stacksize: ss, programsize: ps, size: addr as usize })
+    let mask = pre.iter().map(|bs| bs.iter().map(|b| match b {
+        B::Byte(_) => true,
+        B::Ref(l) | B::Rel(l, _) => !ambiguous.contains(&l.to_ascii_lowercase()),
+    }).collect()).collect();
+    Ok(RefImage { lines, mask, stacksize: ss, programsize: ps, size: addr as usize, ambiguous_names: ambiguous.len() })
 }
 
 /// length in bytes of one source line's instruction (directives included; .ORG is relative, 0 here)
